@@ -673,7 +673,8 @@ func c03E2ESystematic(c *Ctx) {
 	// altered on the way from the merge to the output
 	for mi, mu := range c03Muts() {
 		if strings.HasPrefix(mu.name, "sample.label-empty") || strings.HasPrefix(mu.name, "sample.label-split") ||
-			strings.Contains(mu.name, "F2") || strings.Contains(mu.name, "num-unit-empty") || strings.Contains(mu.name, "fake-both") {
+			strings.Contains(mu.name, "F2") || strings.Contains(mu.name, "num-unit-empty") || strings.Contains(mu.name, "fake-both") ||
+			strings.Contains(mu.name, "label-val-eq-key") {
 			continue // shapes the serialisation itself normalises (C01)
 		}
 		w := c03BaseWorld()
@@ -681,7 +682,7 @@ func c03E2ESystematic(c *Ctx) {
 		a := c03Instantiate(r, w, h, []c03Use{{0, []int64{1, 100}}}, 0, false, true)
 		b := c03Instantiate(r, w, h, []c03Use{{1, []int64{10, 1000}}, {0, []int64{4, 400}}}, mi%4, mi%2 == 1, true)
 		shot := "proto"
-		if mi%3 == 2 {
+		if mi%3 == 2 && !strings.Contains(mu.name, "fn.name-eq") { // an empty function name does not survive the raw text
 			shot = "raw"
 		}
 		if quick && mi%2 == 1 && !strings.HasPrefix(mu.name, "line.") {
